@@ -296,6 +296,7 @@ fn case() -> impl Strategy<Value = Case> {
         1 => Just("".to_string()),
         1 => "\\PC{0,12}",
         1 => Just("xn--bcher-kva.example".to_string()),
+        1 => prop_oneof![Just("mimic:bytes".to_string()), Just("mimic:text".to_string())],
     ];
     let counter = prop_oneof![Just(None), Just(Some(0u32)), Just(Some(1)), Just(Some(0x0102_0304)), Just(Some(u32::MAX)), any::<u32>().prop_map(Some)];
     let len = prop_oneof![
@@ -324,6 +325,21 @@ fn check_any(ctx: &mut Ctx, c: &Case, prefixes: bool) -> Result<(), String> {
                 Err(_) => Ok(()),
                 Ok(_) => Err(format!("a credential id of {len} bytes was accepted at construction")),
             };
+        }
+    }
+    // RP IDs chosen so that their hash *looks like* a CBOR head describing the rest of the encoding (a byte / text string
+    // of exactly the remaining length): raw authenticator data must not be mistaken for a wrapped one. The RP ID is
+    // searched for deterministically (two hash bytes to match: ~65 k attempts).
+    if let Some(kind) = c.rp_id.strip_prefix("mimic:") {
+        let probe = Case { rp_id: "placeholder.example".into(), ..c.clone() };
+        let total = build(&probe)?.to_vec().len();
+        if total >= 37 && total - 2 < 256 {
+            let head = if kind == "text" { 0x78u8 } else { 0x58 };
+            let want = [head, (total - 2) as u8];
+            if let Some(rp) = (0..2_000_000u32).map(|n| format!("login-{n}.example.com")).find(|r| sha256(r.as_bytes())[..2] == want) {
+                ctx.class("RP ID whose hash mimics a CBOR string head for the rest of the encoding");
+                return check(ctx, &Case { rp_id: rp, ..c.clone() }, prefixes);
+            }
         }
     }
     check(ctx, c, prefixes)
